@@ -524,8 +524,31 @@ def c08(tier, seed, replay):
 
 @reg("C28")
 def c28(tier, seed, replay):
-    return storage_prop("C28", tier, seed, "vacuum", ["vacuum", "dump/vacuum"],
-                        "vacuum of a cleanly closed database", replay)
+    # (1) large databases (node table of several pages, relocated table, B-trees of depth > 1, blob chains, vectors)
+    #     vacuumed while closed, judged by PagesTrace under C28
+    import pagechecks
+    vlib.build_harness()
+    if replay and json.load(open(replay)).get("scenario"):
+        sc = [json.load(open(replay))["scenario"]]
+        pf = pagechecks.pages_family("vacuum-replay", sc, tier, seed)
+        nv, nk = generic_verdict("C28", pf["findings"], lambda f: {"property": "C28", "finding": f, "scenario": sc[0]})
+        return 1 if nv else 0
+    sc = pagechecks.vacuum_page_scenarios(tier, seed)
+    pf = pagechecks.pages_family("vacuum", sc, tier, seed)
+    by_id = {s["id"]: s for s in sc}
+    nv2, _ = generic_verdict("C28", pf["findings"], lambda f: {"property": "C28", "finding": f, "scenario": by_id.get(f.get("id"))})
+    # (2) small generated histories with every dump judged per read interface (StorageTrace)
+    rc = storage_prop("C28", tier, seed, "vacuum", ["vacuum", "dump/vacuum"],
+                      "vacuum of a cleanly closed database", replay)
+    ep = os.path.join(vlib.EVIDENCE, "C28.json")
+    ev = json.load(open(ep))
+    ev["coverage"]["large_databases"] = {"scenarios": len(sc), "harness_stats": pf["stats"], "findings": len(pf["findings"]),
+                                         "rule": "600-1150 nodes (node table of two or three pages, relocated table), index, 20 kB values, vector index, "
+                                                 "compactions; close, vacuum, reopen, every node / relationship / value read back and compared by "
+                                                 "PagesTrace, one more transaction, reopen, compared again"}
+    ev["violations"] = int(ev.get("violations", 0)) + nv2
+    json.dump(ev, open(ep, "w"), indent=1, sort_keys=True)
+    return 1 if (rc or nv2) else 0
 
 
 # small design-level models that accompany a trace-validation check: (module, config, expected outcome)
